@@ -47,7 +47,7 @@ def run(ctx, prop):
     ctx.validated(len(cases))
     ctx.cov["exhaustive"] = True
     ctx.rule("every text of length <= MaxLen over {a, e-acute, emoji, LF, CR} enumerated by TLC with the LSP reference "
-             "position of every character boundary; replayed into LineIndex (and every 7th into Vfs/LuaDocument); "
+             "position of every character boundary; replayed into LineIndex and (every other text) into Vfs/LuaDocument incl. to_lsp_range/to_rowan_range over all boundary pairs; "
              "non-trivial = length >= 2" + ("" if prop == "C22" else " and contains a non-ASCII character or CR"))
     rnd = random.Random(ctx.seed)
     for c in rnd.sample(cases, min(5, len(cases))):
